@@ -45,6 +45,13 @@ def search(fn, cfg, model, budget=450):
     variants = [{}]
     if fn == 'dwt_inverse' and 'none_level' not in cfg:
         variants += [{'none_level': 0}, {'none_level': 1}]
+    if fn == 'scat_forward':
+        # module state (eval mode) and the zero-bias / exactly-zero-region corner of the magnitude
+        for v in ({'eval_mode': True, 'magbias': 0.3}, {'magbias': 0.0, 'sparse': True}, {'magbias': 0.0, 'zero_image': True}):
+            if not any(k in cfg for k in v):
+                r2 = _run(fn, dict(cfg, **v), dict(model, H=16, W=16), 0)
+                if r2['ok'] is False:
+                    return dict(model, H=16, W=16, _seed=0, _cfg=v), r2
     for total in range(0, 30):
         for H, W, L2 in itertools.product(range(1, 12), range(1, 12), range(1, 6)):
             if H + W + L2 != total + 3:
